@@ -196,32 +196,48 @@ Proof.
   unfold count_commits in *. cbn [concat length]. rewrite filter_app, app_length, IH by assumption. lia.
 Qed.
 
-(* ---------- required follow-ups (Inval) ---------- *)
+(* ---------- required follow-ups (Inval) and required reads (ReadBody) ---------- *)
+(* the operations whose swallowed failure loses part of the effect *)
+Definition required (o : option opclass) : Prop := o = Some Inval \/ o = Some ReadBody.
+
 Lemma exec_lost_only_faulted_inval tr : forall i k s,
-  (forall f, In f k -> i <= f -> nth_error tr (f - i) <> Some Inval) -> lost s = [] ->
+  (forall f, In f k -> i <= f -> ~ required (nth_error tr (f - i))) -> lost s = [] ->
   lost (fst (exec tr i k s)) = [].
 Proof.
   induction tr as [|op rest IH]; intros i k s Hk Hl; cbn [exec]; [cbn; exact Hl|].
-  assert (Hrest : forall f, In f k -> S i <= f -> nth_error rest (f - S i) <> Some Inval).
+  assert (Hrest : forall f, In f k -> S i <= f -> ~ required (nth_error rest (f - S i))).
   { intros f Hf Hle. specialize (Hk f Hf). replace (f - i) with (S (f - S i)) in Hk by lia. apply Hk. lia. }
+  assert (Hhere : existsb (Nat.eqb i) k = true -> ~ required (Some op)).
+  { intros Ef. apply existsb_exists in Ef as (x & Hx & Hxe). apply Nat.eqb_eq in Hxe; subst x.
+    specialize (Hk i Hx (le_n i)). rewrite Nat.sub_diag in Hk. exact Hk. }
   destruct (committed s) eqn:Hc; destruct (existsb (Nat.eqb i) k) eqn:Ef.
   - destruct op; try (apply IH; auto; fail); try (cbn; exact Hl).
-    exfalso. apply existsb_exists in Ef as (x & Hx & Hxe). apply Nat.eqb_eq in Hxe; subst x.
-    apply (Hk i Hx (le_n i)). rewrite Nat.sub_diag. reflexivity.
+    exfalso. apply (Hhere eq_refl). left. reflexivity.
   - destruct op; apply IH; auto.
-  - destruct op; try (cbn; exact Hl). apply IH; auto.
+  - destruct op; try (cbn; exact Hl); try (apply IH; auto; fail).
+    exfalso. apply (Hhere eq_refl). right. reflexivity.
   - destruct op; apply IH; auto.
 Qed.
 
 (* success means the WHOLE effect is visible -- provided no fault hits a required follow-up *)
 Lemma success_effect_visible tr k : no_posterr tr ->
-  (forall f, In f k -> nth_error tr f <> Some Inval) ->
+  (forall f, In f k -> nth_error tr f <> Some Inval /\ nth_error tr f <> Some ReadBody) ->
   snd (run_request tr k) = ROk -> effect_visible (fst (run_request tr k)) = true.
 Proof.
   intros Hn Hk Hr. unfold effect_visible, run_request in *.
   apply (success_iff_committed tr 0 k sys0 Hn) in Hr. rewrite Hr.
   rewrite (exec_lost_only_faulted_inval tr 0 k sys0); auto.
-  intros f Hf _. rewrite Nat.sub_0_r. apply Hk, Hf.
+  intros f Hf _. rewrite Nat.sub_0_r. destruct (Hk f Hf) as (H1 & H2). intros [H|H]; congruence.
+Qed.
+
+(* the second defect of this kind: a swallowed failure of the read of the body to promote -- success is reported, the
+   commit is durable, but the promoted revision has lost its body (and the body document is then deleted) *)
+Lemma body_read_failure_swallowed :
+  exists tr k, no_posterr tr /\ nth_error tr k = Some ReadBody /\
+               snd (run_request tr [k]) = ROk /\ committed (fst (run_request tr [k])) = true /\
+               effect_visible (fst (run_request tr [k])) = false /\ aux_deleted (fst (run_request tr [k])) = true.
+Proof.
+  exists [Aux; ReadBody; Opt; Opt; Commit; Cleanup], 1. split; [repeat constructor; discriminate | vm_compute; auto 6].
 Qed.
 
 (* the defect: a swallowed failure of a required follow-up -- success is reported, the commit is durable, but part
